@@ -460,6 +460,7 @@ class PipeWorld(World):
         elif kind in ('tcp', 'unix'):
             from ndn.transport.stream_face import TcpFace, UnixFace
             self.peer = StreamPeer(self._on_tx)
+            self.peer.on_tx_mutated = self._tx_mutated
             self.peer.install(self.seams)
             self.face = TcpFace('10.0.0.1', 6363) if kind == 'tcp' else UnixFace('/sim/nfd.sock')
         elif kind == 'udp':
@@ -982,6 +983,8 @@ class PipeWorld(World):
                 raise HarnessError(self.harness_failure)
             if hasattr(self.face, 'recheck_tx'):
                 self.face.recheck_tx()
+            if getattr(getattr(self, 'peer', None), 'writer', None) is not None and hasattr(self.peer.writer, 'recheck_tx'):
+                self.peer.writer.recheck_tx()
             self._post_run(limit)
             from engines import pipeline_model
             pipeline_model.judge(self)
